@@ -2,7 +2,7 @@
 # Model of region extraction and implicit-capture analysis (property C18)
 
 Transcribes
-* `src/onnx_ir/_convenience/_extractor.py` 16-34 (`_collect_all_external_values`), 37-127
+* `src/onnx_ir/_convenience/_extractor.py` 16-39 (`_collect_all_external_values`, with the D47 fix), 42-132
   (`_find_subgraph_bounded_by_values`: backward walk, frontier validation, sort by original index),
   130-191 (`extract`: name resolution, ownership check, view construction, clone of the view);
 * `src/onnx_ir/_convenience/__init__.py` 456-509 (`create_value_mapping`, `include_subgraphs=False`);
@@ -99,10 +99,28 @@ mutual
     | g :: gs => usedG g ++ usedGs gs
 end
 
-/-- `_collect_all_external_values(parent_graph, graph)`: the values used anywhere inside `graph` whose
-    `.graph` is the parent graph (a Python set: duplicates are immaterial) -/
+mutual
+  /-- the graphs entered by `RecursiveGraphIterator(graph, enter_graph=...)`: the graph itself and every
+      graph nested in it -/
+  def gidsG : GraphT → List GId
+    | .mk gid _ _ _ ns => gid :: gidsNs ns
+  def gidsNs : List NodeT → List GId
+    | [] => []
+    | n :: ns => gidsN n ++ gidsNs ns
+  def gidsN : NodeT → List GId
+    | .mk _ _ bs => gidsGs bs
+  def gidsGs : List GraphT → List GId
+    | [] => []
+    | g :: gs => gidsG g ++ gidsGs gs
+end
+
+/-- `_collect_all_external_values(parent_graph, graph)` (with the D47 fix): the values used anywhere inside
+    `graph` whose `.graph` is the parent graph or is not `graph` / a graph nested in it, i.e. the values the
+    nested graph captures from any enclosing scope (a Python set: duplicates are immaterial).
+    `val.graph` may be `None`, which is never a member of `inner_graphs`. -/
 def externalValues (W : World) (parent : GId) (g : GraphT) : List VId :=
-  (usedG g).filter (fun v => W.graphOf v == some parent)
+  (usedG g).filter (fun v =>
+    W.graphOf v == some parent || !(((gidsG g).map some).contains (W.graphOf v)))
 
 /-- the values captured from `parent` by all graph attributes of a node, in attribute order -/
 def captured (W : World) (parent : GId) (n : NodeT) : List VId :=
